@@ -5,5 +5,6 @@ CONSTANTS
  Names = {1, 2}
  Deviations = "asis"
  UseCache = FALSE
+ Evicting = FALSE
 INVARIANTS SharedObjectsNeverWritten DirtyImpliesPrivate UnsharedHasOneOwner CacheAgreesWithStore
 CHECK_DEADLOCK FALSE
